@@ -154,6 +154,32 @@ def run(ck):
         ck.who_calls("S3.who-locks", facts, RW + prim, {}, prefixes=("Ipc::StoreMap::", "Ipc::MemMap::", "Ipc::ReadWriteLock::"), min_callers=1, kinds=("call",),
                      why="(the shared index lock is manipulated outside the map classes)")
 
+    ck.rule("S3b abortWriting: a busy (still being read) aborted entry is marked waitingToBeFreed before its exclusive lock is released, so no later reader can open the "
+            "incomplete entry; freeChain: the chain start/splicing point handed to freeChainAt() are read before rewind() resets them")
+    flaw = ck.flow(aw, markers={"marked": lambda ev: ev.get("e") == "call" and E.strip(ev["x"]).get("f", "").endswith("operator=") and E.m_is_mem("waitingToBeFreed")(E.strip(ev["x"]).get("o")) and E.const(E.strip(ev["x"])["a"][0]) == 1
+                                or (ev.get("e") == "asg" and E.m_is_mem("waitingToBeFreed")(ev.get("lhs")) and E.const(ev.get("rhs")) == 1)})
+    ck.require_passed("S3b.aborted-entry-marked", flaw, ev_call(RW + "unlockExclusive"), "marked", "unlockExclusive() in abortWriting",
+                      why="(readers arriving after the abort would open a writer-less, incomplete entry)")
+    flfc = ck.flow(fc, markers={"rewind": ev_call("Ipc::StoreMapAnchor::rewind")}, track_markers=["rewind"])
+    for s_ in ck.sites(flfc, ev_call(SM + "freeChainAt"), "freeChainAt()", 1):
+        stale = []
+        for a_ in E.strip(s_.ev["x"])["a"]:
+            m_ = E.mentions(a_)
+            if any(x.endswith("::start") or x.endswith("::splicingPoint") for x in m_):
+                if s_.passed("rewind"):
+                    stale.append(E.key(a_))
+            else:
+                for n_ in E.walk(a_):
+                    if n_.get("k") == "ref" and n_.get("dk") == "local":
+                        for d_ in flfc.find(lambda ev, n=n_["d"]: ev.get("e") == "decl" and ev.get("d") == n):
+                            if d_.passed("rewind"):
+                                stale.append(n_["d"])
+        if stale:
+            ck.violation("S3b.free-before-rewind", "S3b|freeChain|reads-after-rewind", s_.where(),
+                         "freeChain passes %s to freeChainAt() after inode.rewind() reset it: the preserved chain suffix (splicing point) of a header-updated entry is freed as well" % stale)
+        else:
+            ck.ok("S3b.free-before-rewind", s_.where(), "freeChainAt() gets the anchor's start/splicingPoint as they were before rewind()")
+
     ck.rule("S4 freeEntry on a busy entry only CAS-marks waitingToBeFreed; abortUpdating: RESPONSE(stale edition -> unlockHeaders + closeForReading), "
             "RESPONSE(fresh edition -> abortWriting); openKeyless lambda returns true only when openForWritingAt() succeeded")
     fe = facts.fn(SM + "freeEntry")
